@@ -520,6 +520,11 @@ func ProfileByName(name string) Profile {
 		p.MaxFields = 2
 		p.MaxElems = 2
 		p.PInvalid = 45
+		// issues that are not the issue of a test (failing transforms, Preprocess errors) next to tests that redirect theirs
+		p.PIssuePath = 25
+		p.PPT = 30
+		p.PPTErr = 55
+		p.PPre = 12
 	}
 	return p
 }
